@@ -449,13 +449,18 @@ func countsMap(c opCase) map[string]int {
 
 // execute builds a fresh container from the case, seeds goalign's random stream and runs the
 // operation once
-func execute(c opCase) (r result) { return executeOn(c, nil) }
+func execute(c opCase) (r result) { return executeOn(c, nil, nil) }
 
 // executeOn does the same on the given container (nil: a fresh one)
-func executeOn(c opCase, x align.SeqBag) (r result) {
+// counts: the caller-owned count map of Rarefy (nil: a fresh one): a history reuses the same map
+// from call to call, as `goalign sample rarefy -r N` does
+func executeOn(c opCase, x align.SeqBag, counts map[string]int) (r result) {
 	c = c.expand()
 	if x == nil {
 		x = buildFor(c)
+	}
+	if counts == nil {
+		counts = countsMap(c)
 	}
 	r.Length = -9
 	errs := func(e error) {
@@ -507,7 +512,7 @@ func executeOn(c opCase, x align.SeqBag) (r result) {
 				r.Rows = gen.Snapshot(s)
 			}
 		case "rarefy-bag":
-			s, e := sb.RarefySeqBag(c.N, countsMap(c))
+			s, e := sb.RarefySeqBag(c.N, counts)
 			errs(e)
 			if s == nil || isNilBag(s) {
 				r.Nil = true
@@ -552,7 +557,7 @@ func executeOn(c opCase, x align.SeqBag) (r result) {
 	case "subalign":
 		ret(al.RandSubAlign(c.N, c.Flag))
 	case "rarefy":
-		ret(al.Rarefy(c.N, countsMap(c)))
+		ret(al.Rarefy(c.N, counts))
 	case "partboot":
 		// the partitioned bootstrap as `build seqboot --partition` builds it
 		parts, e := al.Split(partitionSet(c.Flag, c.N, al.Length()))
@@ -651,7 +656,20 @@ func checkOp(c opCase) (o pbt.Outcome, err error) {
 	c = c.expand()
 	orig := c.Ali.Rows
 	x := buildFor(c)
-	r1 := executeOn(c, x)
+	// the arguments the caller owns (the count map of Rarefy) are created once for the whole history
+	// and must come back unchanged from every call
+	args := countsMap(c)
+	argsUnchanged := func(when string) error {
+		want := countsMap(c)
+		if !reflect.DeepEqual(args, want) {
+			return fmt.Errorf("%s modified the count map given by the caller (%s): %v -> %v", c.Op, when, trunc(fmt.Sprint(want), 600), trunc(fmt.Sprint(args), 600))
+		}
+		return nil
+	}
+	r1 := executeOn(c, x, args)
+	if err = argsUnchanged("first call"); err != nil {
+		return
+	}
 	r2 := execute(c)
 	var j1, j2 []byte
 	if !reflect.DeepEqual(r1, r2) || c.Big == nil {
@@ -665,7 +683,10 @@ func checkOp(c opCase) (o pbt.Outcome, err error) {
 		// the operation does not modify its receiver: Seed(s); op(x) again on the SAME object, then
 		// after another draw from it in between
 		again := func(what string) error {
-			r := executeOn(c, x)
+			r := executeOn(c, x, args)
+			if e := argsUnchanged(what); e != nil {
+				return e
+			}
 			if !reflect.DeepEqual(r1, r) {
 				a, _ := json.Marshal(r1)
 				b, _ := json.Marshal(r)
@@ -678,7 +699,10 @@ func checkOp(c opCase) (o pbt.Outcome, err error) {
 		}
 		other := c
 		other.Seed = c.Seed ^ 0x5DEECE66D
-		executeOn(other, x)
+		executeOn(other, x, args)
+		if err = argsUnchanged("call with another seed"); err != nil {
+			return
+		}
 		if err = again("after a call with another seed in between"); err != nil {
 			return
 		}
